@@ -43,6 +43,20 @@ package main
 // After / AddCore, through exp/zapslog's Handler, with failing sinks - as probes, as a history
 // operation and inside the active sinks.
 
+//
+// TERMINAL HOOKS.  The last user of a pooled CheckedEntry is not a core but the entry's CheckWriteHook
+// (Panic, Fatal, DPanic in development, After / Should on a bare entry): it is handed the *CheckedEntry
+// itself, after every core has written.  What it sees there - level, logger name, message, time, caller,
+// stack, ErrorOutput, and the fields it is handed - must be the entry that was logged, whatever the hook
+// did before it looked (report through loggers of its own, flush, wait while other goroutines log):
+// an entry returned to the pool before its hook is done is taken, reset and refilled by the next
+// log call.  The terminal probes install hooks that FIRST do the activity "act" (plus a log call
+// through a chain of loggers whose sinks log, so that several CheckedEntries are in use at once and
+// the pool's most recently returned objects are all handed out) and only THEN read the entry; what
+// they saw, what they wrote to ce.ErrorOutput and the value of the final panic (panic(ce.Message) of
+// WriteThenPanic) are part of the observed bytes.  Each hook also knows which logger it was installed
+// for: an entry of any other logger is recorded in c08Stale like a stale delivery.
+
 import (
 	"bytes"
 	"context"
@@ -221,7 +235,18 @@ var (
 	c08AuditLog  *zap.Logger
 	c08AuditEnc  zapcore.Encoder
 	c08AuditBare zapcore.Core // driven without a Logger; its second sink fails
+	c08AuditDeep *zap.Logger  // its sink logs through a second logger whose sink logs through a third
 )
+
+// a sink that reports every payload through a logger of its own: while the outermost call of such a
+// chain is in progress, one CheckedEntry (and one line buffer) per link is in use at the same time
+type c08ChainSink struct{ next *zap.Logger }
+
+func (s c08ChainSink) Write(p []byte) (int, error) {
+	s.next.Info("forwarded by a sink", zap.Int("n", len(p)), zap.Reflect("r", []int{len(p)}))
+	return len(p), nil
+}
+func (c08ChainSink) Sync() error { return nil }
 
 type c08FailNull struct{}
 
@@ -237,6 +262,17 @@ func c08AuditInit() {
 		c08AuditEnc = zapcore.NewJSONEncoder(c08Cfg())
 		c08AuditBare = zapcore.NewTee(zapcore.NewCore(zapcore.NewJSONEncoder(c08Cfg()), c08Null{}, zapcore.DebugLevel),
 			zapcore.NewCore(zapcore.NewConsoleEncoder(c08Cfg()), c08FailNull{}, zapcore.DebugLevel))
+		link := func(name string, console bool, ws zapcore.WriteSyncer, opts ...zap.Option) *zap.Logger {
+			var enc zapcore.Encoder = zapcore.NewJSONEncoder(c08Cfg())
+			if console {
+				enc = zapcore.NewConsoleEncoder(c08Cfg())
+			}
+			opts = append([]zap.Option{zap.WithClock(c08Clock{}), zap.ErrorOutput(c08Quiet{"the active sinks' chained diagnostics logger " + name})}, opts...)
+			return zap.New(zapcore.NewCore(enc, ws, zapcore.DebugLevel), opts...).Named(name)
+		}
+		l3 := link("audit-3", false, c08Null{})
+		l2 := link("audit-2", true, c08ChainSink{l3}, zap.AddCaller())
+		c08AuditDeep = link("audit-1", false, c08ChainSink{l2}, zap.AddStacktrace(zapcore.WarnLevel))
 	})
 }
 
@@ -259,6 +295,9 @@ func c08Audit(which int, n int) {
 		if ce := c08AuditBare.Check(zapcore.Entry{Level: zapcore.WarnLevel, Time: c08Clock{}.Now(), Message: "forwarded"}, nil); ce != nil {
 			ce.Write(zap.Int("n", n))
 		}
+		// ... and through a chain of loggers whose sinks log: three CheckedEntries in use at once (a
+		// single call only ever takes the pool's most recently returned object)
+		c08AuditDeep.Warn("chained audit", zap.Int("n", n))
 	}
 }
 
@@ -292,6 +331,7 @@ func c08Nested(act int, n int) (after func()) {
 			defer func() { pe = recover() }()
 			c08Audit(c08ActConsole, n)
 			c08Audit(c08ActJSON, n)
+			c08Audit(c08ActLogger, n)
 		}()
 		<-done
 		if pe != nil {
@@ -309,19 +349,20 @@ func c08ActAbs(act int) []SX {
 	w, c := c08Abs(2, 1, 0, 0, 1, 0, 1), c08Abs(1, 1, 1, 0, 0, 2, 0)
 	l := c08Abs(3, 1, 1, 0, 0, 0, 6+8*4)
 	bare := c08Abs(6, 1, 0, 0, 0, 0, 1)
+	deep := c08Abs(3, 2, 1, 0, 0, 0, 4) // the chain of loggers: stack capture, one core each
 	switch act {
 	case c08ActJSON:
 		return []SX{j}
 	case c08ActConsole:
 		return []SX{w, c}
 	case c08ActLogger:
-		return []SX{l, bare}
+		return []SX{l, bare, deep}
 	case c08ActHold:
 		return []SX{c08Abs(2, 1, 1, 0, 1, 0, 0)}
 	case c08ActBlocked:
-		return []SX{j, w, c}
+		return []SX{j, w, c, l, bare, deep}
 	case c08ActYield:
-		return []SX{j, w, c, l, bare}
+		return []SX{j, w, c, l, bare, deep}
 	}
 	return nil
 }
@@ -384,6 +425,117 @@ func (h c08Hook) OnWrite(ce *zapcore.CheckedEntry, _ []zapcore.Field) {
 	}
 }
 
+// ---------- terminal hooks that look at their entry late ----------
+// what a terminal hook was handed, as far as a hook can see it
+type c08Rec struct {
+	mu sync.Mutex
+	b  []byte
+}
+
+func (r *c08Rec) add(format string, args ...interface{}) {
+	if r == nil {
+		return
+	}
+	r.mu.Lock()
+	r.b = append(r.b, []byte("<"+fmt.Sprintf(format, args...)+">")...)
+	r.mu.Unlock()
+}
+
+func (r *c08Rec) bytes() []byte {
+	r.mu.Lock()
+	defer r.mu.Unlock()
+	return append([]byte(nil), r.b...)
+}
+
+func c08Saw(ce *zapcore.CheckedEntry, fields []zapcore.Field) string {
+	enc := zapcore.NewMapObjectEncoder()
+	for _, f := range fields {
+		f.AddTo(enc)
+	}
+	caller := "-"
+	if ce.Caller.Defined {
+		caller = ce.Caller.TrimmedPath() + " " + ce.Caller.Function
+	}
+	return fmt.Sprintf("level=%s logger=%q msg=%q t=%d caller=%s stack=%q errout=%v fields=%v",
+		ce.Level, ce.LoggerName, ce.Message, ce.Time.UnixNano(), caller, ce.Stack, ce.ErrorOutput != nil, enc.Fields)
+}
+
+// A hook of the kind services install (zap.WithFatalHook / WithPanicHook, CheckedEntry.After): it first
+// reports through loggers of its own, flushes, waits - and only then looks at the entry it was handed,
+// writes a line about it to the entry's ErrorOutput, and finally returns or dies the way the built-in
+// hooks do.
+type c08SeeHook struct {
+	label  string
+	act    int         // what it does before it looks (c08Nested; yield = a slow hook while companions log)
+	own    *zap.Logger // != nil: it also reports through this logger of its own, before and after looking
+	rec    *c08Rec     // nil: only the check below
+	name   string      // logger name and message prefix of the entries it was installed for
+	prefix string
+	sc     *c08Scope
+	then   zapcore.CheckWriteHook // how it ends (nil: it returns)
+}
+
+func (h *c08SeeHook) OnWrite(ce *zapcore.CheckedEntry, fields []zapcore.Field) {
+	if h.sc != nil && h.sc.retired.Load() {
+		c08StaleAdd("a terminal hook of " + h.sc.label + ", which ended earlier, fired on entry " + strconv.Quote(ce.Message))
+	}
+	after := func() {}
+	if h.own != nil {
+		h.own.Info("terminal hook running", zap.String("hook", h.label))
+	}
+	switch h.act {
+	case 0:
+	case c08ActYield:
+		// a slow hook (flush, sleep): other goroutines keep logging meanwhile
+		for i := 0; i < 6; i++ {
+			runtime.Gosched()
+		}
+	case c08ActBlocked:
+		c08Nested(h.act, 0)()
+	default:
+		after = c08Nested(h.act, 0)
+		c08Audit(c08ActLogger, 0)
+	}
+	saw := c08Saw(ce, fields)
+	after()
+	h.rec.add("hook %s saw %s", h.label, saw)
+	if ce.LoggerName != h.name || !strings.HasPrefix(ce.Message, h.prefix) || ce.Level < zapcore.WarnLevel {
+		c08StaleAdd("the terminal hook " + h.label + " of logger " + strconv.Quote(h.name) + " was handed the entry " +
+			fmt.Sprintf("{level=%s logger=%q msg=%s}", ce.Level, ce.LoggerName, c08Clip([]byte(ce.Message))))
+	}
+	if ce.ErrorOutput != nil {
+		fmt.Fprintf(ce.ErrorOutput, "hook %s: terminal entry %q\n", h.label, ce.Message)
+	}
+	if h.own != nil {
+		h.own.Warn("terminal entry", zap.String("hook", h.label), zap.String("level", ce.Level.String()), zap.String("msg", ce.Message))
+	}
+	if h.then != nil {
+		h.then.OnWrite(ce, fields)
+	}
+}
+
+// runs f on a goroutine of its own and records how it ended: returned, panicked (with which value), Goexit
+func c08Die(rec *c08Rec, label string, f func()) {
+	done := make(chan struct{})
+	go func() {
+		defer close(done)
+		returned := false
+		defer func() {
+			switch e := recover(); {
+			case e != nil:
+				rec.add("%s: panic %q", label, fmt.Sprint(e))
+			case returned:
+				rec.add("%s: returned", label)
+			default:
+				rec.add("%s: goexit", label)
+			}
+		}()
+		f()
+		returned = true
+	}()
+	<-done
+}
+
 type c08PanicObj struct{}
 
 func (c08PanicObj) MarshalLogObject(zapcore.ObjectEncoder) error { panic("marshaler panic") }
@@ -423,6 +575,11 @@ func c08Fields(a, b, c, d, e, f int, big int) []zapcore.Field {
 }
 
 func c08Abs(k, a, b, c, d, e, f int) SX { return L(I(k), I(a), I(b), I(c), I(d), I(e), I(f)) }
+
+// ... with a terminal hook that makes h-1 log calls of its own before it looks at its entry (h = 0: no hook)
+func c08AbsH(k, a, b, c, d, e, f, h int) SX {
+	return L(I(k), I(a), I(b), I(c), I(d), I(e), I(f), I(h))
+}
 
 // Every probe runs on a goroutine of its own, started here: the captured stack is then the same
 // (probe closure, this function literal) whoever asked for the observation.  With act = yield two
@@ -704,6 +861,86 @@ func c08Probes(seed uint64) []*c08Probe {
 		_ = h.WithGroup("grp").WithAttrs([]slog.Attr{slog.String("ctx", "v")}).Handle(context.Background(), rec2)
 		return c08Join(s1, s2)
 	})
+	// terminal entries: the hook is the last user of the pooled CheckedEntry, and it looks at the entry
+	// only after it has done its own logging / waited (act); a second logger's hook always reports
+	// through a logger of its own first
+	add(1, "terminal-hook-reads-entry", nil, c08AbsH(3, 3, 1, 0, 0, 1, 2+8*2, 3), func(sc *c08Scope, act int) []byte {
+		rec := &c08Rec{}
+		hp := &c08SeeHook{label: "on-panic", act: act, rec: rec, name: "term", prefix: "term: ", sc: sc}
+		hf := &c08SeeHook{label: "on-fatal", act: act, rec: rec, name: "term", prefix: "term: ", sc: sc}
+		lg, s1, s2, es := c08Logger(sc, act, false, true, false, zap.AddCaller(), zap.Development(), zap.WithPanicHook(hp), zap.WithFatalHook(hf))
+		lg = lg.Named("term").With(zap.Int("ctx", 1))
+		lg.Panic("term: panic", c08Fields(2, 1, 0, 0, 1, 0, 0)...)
+		lg.Info("between")
+		lg.Fatal("term: fatal", zap.String("k", "v"), zap.Namespace("ns"), zap.Int("n", 2))
+		lg.DPanic("term: dpanic in development")
+		if ce := lg.Check(zapcore.PanicLevel, "term: checked panic"); ce != nil {
+			ce.Write(zap.Int("n", 1))
+		}
+		lg.Sugar().Panicw("term: sugared panic", "a", 1, "e", errors.New("boom"))
+		lg.Sugar().Fatalf("term: %s", "sugared fatal")
+		lg.WithOptions(zap.AddStacktrace(zapcore.PanicLevel)).Panic("term: panic with a stack")
+		lg.Error("after")
+		// a hook with a logger of its own (console, caller), whatever act is
+		own, o1, _, oes := c08Logger(sc, act, true, false, false, zap.AddCaller())
+		ho := &c08SeeHook{label: "auditing", act: act, own: own.Named("hook-audit"), rec: rec, name: "svc", prefix: "svc: ", sc: sc}
+		l2, t1, t2, tes := c08Logger(sc, act, true, false, false, zap.WithPanicHook(ho), zap.WithFatalHook(ho))
+		l2 = l2.Named("svc")
+		l2.Fatal("svc: disk on fire", zap.Int("i", 1))
+		l2.Info("tick")
+		l2.Panic("svc: invariant broken", c08Fields(1, 1, 0, 1, 0, 0, 0)...)
+		return append(c08Join(s1, s2, es, o1, oes, t1, t2, tes), rec.bytes()...)
+	})
+	// ... hooks that end the way the built-in ones do (panic(ce.Message), Goexit) after they have looked,
+	// and the built-in hooks themselves: the panic value is the entry's message
+	add(1, "terminal-hook-then-dies", nil, c08AbsH(3, 1, 1, 0, 0, 0, 0, 2), func(sc *c08Scope, act int) []byte {
+		rec := &c08Rec{}
+		hk := func(label string, then zapcore.CheckWriteHook) *c08SeeHook {
+			return &c08SeeHook{label: label, act: act, rec: rec, name: "die", prefix: "die: ", sc: sc, then: then}
+		}
+		lg, s1, s2, es := c08Logger(sc, act, false, false, false,
+			zap.WithPanicHook(hk("look-then-panic", zapcore.WriteThenPanic)), zap.WithFatalHook(hk("look-then-panic-on-fatal", zapcore.WriteThenPanic)))
+		lg = lg.Named("die")
+		c08Die(rec, "Panic", func() { lg.Panic("die: panic", zap.Int("n", 1)) })
+		c08Die(rec, "Fatal", func() { lg.Fatal("die: fatal", zap.Reflect("r", []int{1})) })
+		c08Die(rec, "DPanic in production", func() { lg.DPanic("die: dpanic, production") })
+		lgx := lg.WithOptions(zap.WithFatalHook(hk("look-then-goexit", zapcore.WriteThenGoexit)), zap.Development())
+		c08Die(rec, "Fatal with Goexit", func() { lgx.Fatal("die: fatal, goexit") })
+		c08Die(rec, "DPanic in development", func() { lgx.DPanic("die: dpanic, development") })
+		// the built-in hooks
+		ld, d1, d2, des := c08Logger(sc, act, true, true, false, zap.Development(), zap.WithFatalHook(zapcore.WriteThenPanic))
+		c08Die(rec, "built-in Panic", func() { ld.Panic("die: built-in panic", c08Fields(1, 0, 0, 0, 1, 0, 0)...) })
+		c08Die(rec, "built-in DPanic", func() { ld.DPanic("die: built-in dpanic") })
+		c08Die(rec, "built-in Fatal/WriteThenPanic", func() { ld.Fatal("die: built-in fatal") })
+		c08Die(rec, "built-in Fatal/WriteThenGoexit", func() {
+			ld.WithOptions(zap.WithFatalHook(zapcore.WriteThenGoexit)).Named("x").Fatal("die: built-in fatal, goexit")
+		})
+		c08Die(rec, "built-in Panicf", func() { ld.Sugar().Panicf("die: %s", "sugared") })
+		ld.Info("after")
+		return append(c08Join(s1, s2, es, d1, d2, des), rec.bytes()...)
+	})
+	// ... and on entries that never pass through a zap.Logger: After / Should on a bare Check
+	add(1, "bare-after-hook-reads-entry", nil, c08AbsH(6, 2, 1, 0, 0, 1, 3, 3), func(sc *c08Scope, act int) []byte {
+		rec := &c08Rec{}
+		core, s1, s2 := bareCores(sc, act)
+		s3 := sc.sink(act, false)
+		third := zapcore.NewCore(zapcore.NewJSONEncoder(c08Cfg()), s3, zapcore.DebugLevel)
+		hk := &c08SeeHook{label: "after", act: act, rec: rec, name: "direct", prefix: "bare: ", sc: sc}
+		c08Bare(core, bareEnt(zapcore.WarnLevel, "bare: hooked"), hk, nil, c08Fields(2, 1, 0, 0, 1, 0, 0))
+		c08Bare(core.With(c08Fields(1, 0, 0, 1, 0, 0, 0)), bareEnt(zapcore.ErrorLevel, "bare: hooked, derived core, extra core"), hk, third, nil)
+		c08Bare(zapcore.NewNopCore(), bareEnt(zapcore.WarnLevel, "bare: hook only"), hk, nil, []zapcore.Field{zap.Int("n", 1)})
+		c08Die(rec, "Should(WriteThenPanic)", func() {
+			ent := bareEnt(zapcore.ErrorLevel, "bare: should panic")
+			core.Check(ent, nil).Should(ent, zapcore.WriteThenPanic).Write(zap.Int("n", 2))
+		})
+		c08Die(rec, "After(look-then-goexit)", func() {
+			ent := bareEnt(zapcore.DPanicLevel, "bare: look, then goexit")
+			dying := &c08SeeHook{label: "after-goexit", act: act, rec: rec, name: "direct", prefix: "bare: ", sc: sc, then: zapcore.WriteThenGoexit}
+			core.Check(ent, nil).After(ent, dying).Write()
+		})
+		c08Bare(core, bareEnt(zapcore.InfoLevel, "plain after hooked"), nil, nil, nil)
+		return append(c08Join(s1, s2, s3), rec.bytes()...)
+	})
 	// foreign code that runs in the middle of a zap operation: a marshaler (in a With context and in
 	// the entry's fields) and a hook that log through other loggers; tee of a JSON and a console core
 	add(1, "logger-active-marshaler-hook", nil, c08Abs(3, 3, 1, 0, 1, 2, 2+8*2), func(sc *c08Scope, act int) []byte {
@@ -897,8 +1134,19 @@ func c08HistOp1(sc *c08Scope, r *RNG, kind int) (desc SX, class string, unexpect
 			lg.Info("hist through active sinks", c08Fields(a, b, c, d, e, f, 0)...)
 			core := zapcore.NewCore(zapcore.NewConsoleEncoder(c08Cfg()), sc.sink(act, false), zapcore.DebugLevel)
 			_ = core.With(c08Fields(1, 0, 0, 1, 0, 0, 0)).Write(zapcore.Entry{Message: "h"}, c08Fields(a, b, 0, 0, e, 0, 0))
+			// terminal entries whose hooks are active too: they check which entry they are handed
+			hk := &c08SeeHook{label: "hist", act: act, name: "hist-term", prefix: "hist term", sc: sc}
+			lt, _, _, _ := c08Logger(sc, 0, f%2 == 0, false, false, zap.WithPanicHook(hk), zap.WithFatalHook(hk))
+			lt = lt.Named("hist-term")
+			lt.Panic("hist term panic", c08Fields(a, b, 0, 0, 0, 0, 0)...)
+			if d > 0 {
+				lt.Fatal("hist term fatal")
+			}
+			if e > 0 {
+				c08Bare(core, zapcore.Entry{Level: zapcore.ErrorLevel, LoggerName: "hist-term", Message: "hist term bare"}, hk, nil, nil)
+			}
 		})
-		return c08Abs(3, a, b, c, d, e, 2+8*4), "a", unexpected
+		return c08AbsH(3, a, b, c, d, e, 2+8*4, 2), "a", unexpected
 	case 15: // entries that never pass through a zap.Logger: Check(ent, nil) + Write, After, AddCore, failing sinks, slog bridge
 		fl := r.Intn(16)
 		quiet(func() {
